@@ -14,7 +14,7 @@ MODULE = "mc.checks.c16"
 ALPHABET = ["a", "b", "..", ".", "", "c:"]
 # the gate decides by joining the name to a fixed probe directory and testing containment: names that mention the probe
 # directory's own components can leave the root and come back in (the property text names this boundary case)
-PROBE_ALPHABET = ["..", "a", "dafj08sajfa", "a90sufoiasj09", "."]
+PROBE_ALPHABET = ["..", "a", "dafj08sajfa", "a90sufoiasj09", ".", ""]  # ("": empty components, i.e. doubled separators - seeded change C16g)
 PREFIXES = ["", "/", "//"]
 SUFFIXES = ["", "/"]
 
